@@ -21,7 +21,7 @@ Fixpoint rep (k : nat) (w : list N) : list N := match k with O => [] | S k' => w
 Definition w_memmove : list N := rep 125 (bytes_of_string "group:1 ") ++ bytes_of_string "pu:1".
 (* one level fewer is fine *)
 Definition w_125 : list N := rep 124 (bytes_of_string "group:1 ") ++ bytes_of_string "pu:1".
-Definition w_loops : list N := bytes_of_string "pu:2(indexes=1* 2:2*2:4*2)".
+Definition w_loops : list N := bytes_of_string "pu:8(indexes=1* 2:2*2:4*2)".
 Definition w_uninit : list N := bytes_of_string "pack:2 core:2 pu:2(indexes=pu:core)".
 Definition w_e0 : list N := [112; 117; 224; 58; 50].       (* "pu\xe0:2" *)
 Definition w_div : list N := bytes_of_string "pack:65536 die:65536 core:65536 l2:65536 pu:2(indexes=l2:pack)".
@@ -423,6 +423,7 @@ Proof.
     eapply spec_bind; [apply (strtoul_spec v s n Hs pos2 0); lia|]. intros r Hr. cbv beta in Hr. cbv zeta.
     destruct (N.eqb_spec (snd r) pos2) as [_|Hne]; [exact I|].
     destruct (fst r =? 0); [exact I|].
+    destruct (fix_width_overflow && _); [exact I|].
     eapply spec_bind; [apply lv_upd_spec; lia|]. intros lv4 L4. cbv beta in L4.
     eapply spec_bind; [apply (rdo_spec v s n Hs); lia|]. intros cn [Hcn Zcn].
     eapply spec_bind with (Q := fun r2 : list level * N => lenl (fst r2) = MAXD /\ snd r <= snd r2 <= n).
